@@ -148,9 +148,13 @@ func Bases() []Base {
 		mk("helpers", `	c := h1(a) + h2(b)
 	z := hs1(x) + hs2(y)
 	return c, z`),
-		mk("crosspkg", `	z := strings.ToUpper(x) + strings.Repeat(y, 2)
-	n := strings.Index(z, "B") + len(strconv.Itoa(a*b))
-	return n, z + strconv.Itoa(a)`),
+		mk("crosspkg", `	n := utf8.RuneCountInString(x) + bits.OnesCount(uint(a*b+1000))
+	m := bits.LeadingZeros8(uint8(a)) + bits.Len(uint(b+2))
+	z := y
+	if utf8.ValidString(x) && m > 3 {
+		z = x + y
+	}
+	return n*100 + m, z`),
 		mk("closure", `	k := a
 	add := func(v int) int {
 		k += v
